@@ -864,49 +864,37 @@ theorem natValue_pos {m : Mag} (hm : Mag.Ok m) (hi : m.isInteger = true) : 0 < m
 theorem tdiv_ge_iff (h k : Int) (hh : 0 ≤ h) (hk : 0 < k) : (Int.tdiv h k ≥ 2147 ↔ 2147 * k ≤ h) := by
   rw [Int.tdiv_eq_ediv_of_nonneg hh, ge_iff_le, Int.le_ediv_iff_mul_le hk]
 
-def hardMsg : String := "get_value<Rep>: value outside range of destination type"
-
 /-- `CanScaleThresholdWithoutOverflow` in closed form, for int32/int64 and an integer factor. -/
 theorem canScale_spec (t : IntTy) (ht : t = IntTy.i32 ∨ t = IntTy.i64) {sf : Mag} (hok : Mag.Ok sf)
     (hi : sf.isInteger = true) :
-    canScaleThreshold t sf =
-      if (sf.natValue : Int) > t.hi then .hard hardMsg
-      else .ok (decide (2147 * (sf.natValue : Int) ≤ t.hi)) := by
+    canScaleThreshold t sf = decide (2147 * (sf.natValue : Int) ≤ t.hi) := by
   have hpos := natValue_pos hok hi
   have hthr : (2147 : Int) ≤ t.hi := by rcases ht with rfl | rfl <;> decide
   have hhi : (0 : Int) ≤ t.hi := by omega
   unfold canScaleThreshold
+  simp only [overflowThreshold, hthr, decide_true, Bool.true_and]
   by_cases hone : sf.natValue ≤ 1
   · have h1 : sf.natValue = 1 := by omega
     rw [if_pos hone, h1]
-    have : ¬ (((1 : Nat) : Int) > t.hi) := by omega
-    rw [if_neg this]
-    simp [overflowThreshold, hthr]
+    simp [hthr]
   · rw [if_neg hone]
     unfold getValueInt
     rw [hi]
     by_cases hfit : (sf.natValue : Int) ≤ t.hi
-    · have hng : ¬ ((sf.natValue : Int) > t.hi) := by omega
-      rw [if_neg hng]
-      simp only [Bool.true_and, decide_eq_true_eq, hfit, if_true]
+    · simp only [Bool.true_and, decide_eq_true_eq, hfit, if_true]
       have := tdiv_ge_iff t.hi (sf.natValue : Int) hhi (by omega)
-      simp only [overflowThreshold, hthr, decide_true, Bool.true_and]
-      congr 1
       by_cases h2 : 2147 * (sf.natValue : Int) ≤ t.hi
       · simp [h2, this.2 h2]
       · have h3 : ¬ (Int.tdiv t.hi (sf.natValue : Int) ≥ 2147) := fun h => h2 (this.1 h)
         simp [h2, h3]
-    · have hg : (sf.natValue : Int) > t.hi := by omega
-      rw [if_pos hg]
-      simp [hfit, hardMsg]
+    · have h2 : ¬ (2147 * (sf.natValue : Int) ≤ t.hi) := by omega
+      simp [hfit, h2]
 
 /-- `PermitImplicitFrom` between two integral reps, in closed form. -/
 theorem permit_int_int (tr sr : Rep) (t : IntTy) (htr : tr.intTy? = some t) (hsr : sr.isIntegral = true)
     (tgt src : Mag) (hok : Mag.Ok (Mag.div src tgt)) :
     permitImplicitFrom tgt tr src sr =
-      if (Mag.div src tgt).isInteger = false then .ok false
-      else if ((Mag.div src tgt).natValue : Int) > t.hi then .hard hardMsg
-      else .ok (decide (2147 * ((Mag.div src tgt).natValue : Int) ≤ t.hi)) := by
+      ((Mag.div src tgt).isInteger && decide (2147 * ((Mag.div src tgt).natValue : Int) ≤ t.hi)) := by
   unfold permitImplicitFrom
   simp only []
   generalize Mag.div src tgt = sf at *
@@ -915,39 +903,22 @@ theorem permit_int_int (tr sr : Rep) (t : IntTy) (htr : tr.intTy? = some t) (hsr
   have hthr : (2147 : Int) ≤ t.hi := by rcases ht with rfl | rfl <;> decide
   by_cases hnil : sf = []
   · subst hnil
-    have hcore : corePolicy tr [] sr = .ok true := by
+    have hcore : corePolicy tr [] sr = true := by
       unfold corePolicy
       by_cases hrs : tr = sr
       · simp [hrs]
       · simp [hrs, htr, hsr, Mag.isInteger, canScaleThreshold, Mag.natValue, overflowThreshold, hthr]
     rw [hcore]
-    have h1 : ¬ (t.hi < 1) := by omega
-    simp [Mag.isInteger, Mag.natValue, h1, hthr]
+    simp [Mag.isInteger, Mag.natValue, hthr]
   · have hcarve : carveOut tr sf sr = false := by simp [carveOut, hnil]
-    rw [hcarve]
+    rw [hcarve, Bool.or_false]
     unfold corePolicy
     have h0 : ¬ (sf = [] ∧ tr = sr) := fun h => hnil h.1
     rw [if_neg h0, htr]
-    simp only [hsr, Bool.not_true, Bool.false_eq_true, if_false]
+    simp only [hsr, Bool.true_and]
     cases hi : sf.isInteger with
     | false => simp
-    | true =>
-      simp only [Bool.not_true, Bool.false_eq_true, if_false]
-      rw [canScale_spec t ht hok hi]
-      split <;> rename_i h
-      · split at h <;> simp_all
-      · split at h
-        · simp_all
-        · rename_i hng
-          simp only [Outcome.ok.injEq, decide_eq_true_eq] at h
-          simp [hng, h]
-      · split at h
-        · simp_all
-        · rename_i hng
-          simp only [Outcome.ok.injEq, decide_eq_false_iff_not] at h
-          simp [hng, h]
-
-
+    | true => rw [canScale_spec t ht hok hi]
 
 /-- All facts relating `CommonMagnitude` of two period units to chrono's common period. -/
 theorem common_period_all (p1 p2 : Period) (h1 : p1.Pos) (h2 : p2.Pos) :
